@@ -2,13 +2,15 @@ module verifharness
 
 go 1.24.2
 
-require github.com/datastax/cql-proxy v0.0.0
+require (
+	github.com/datastax/cql-proxy v0.0.0
+	github.com/datastax/go-cassandra-native-protocol v0.0.0-20220706104457-5e8aad05cf90
+)
 
 require (
 	github.com/alecthomas/kong v0.2.17 // indirect
 	github.com/apapsch/go-jsonmerge/v2 v2.0.0 // indirect
 	github.com/datastax/astra-client-go/v2 v2.2.54 // indirect
-	github.com/datastax/go-cassandra-native-protocol v0.0.0-20220706104457-5e8aad05cf90 // indirect
 	github.com/deepmap/oapi-codegen v1.12.4 // indirect
 	github.com/golang/snappy v0.0.3 // indirect
 	github.com/google/uuid v1.3.0 // indirect
